@@ -4,10 +4,11 @@
 export GOFLAGS=-mod=mod GOPROXY=off GOSUMDB=off GOTOOLCHAIN=local
 wt=$(mktemp -d /tmp/selftest.XXXX); rmdir $wt
 git -C /repo worktree add --detach $wt HEAD >/dev/null 2>&1 || exit 9
+mkdir -p $wt/.verif && cp /verif/known_findings.json $wt/.verif/
 pass=0; fail=0
 for p in ${@:-/verif/mutants/*.patch}; do
   prop=$(basename $p | cut -d_ -f1)
-  ( cd $wt && git checkout -q -- . && git apply $p ) || { echo "NOAPPLY $p"; fail=$((fail+1)); continue; }
+  ( cd $wt && git checkout -q -- . && git apply --exclude='.verif/*' $p ) || { echo "NOAPPLY $p"; fail=$((fail+1)); continue; }
   if ! (cd $wt && go build ./... >/dev/null 2>&1); then echo "NOBUILD $p"; fail=$((fail+1)); continue; fi
   out=$(/verif/bin/nplint -prop $prop -tier quick -repo $wt -verif $wt/.verif 2>&1); code=$?
   if [ $code -eq 1 ]; then pass=$((pass+1)); echo "KILLED  $(basename $p): $(echo "$out" | grep '^VIOLATED ' | head -1 | awk '{print $2}')"; else fail=$((fail+1)); echo "MISSED  $(basename $p) (exit $code) $(echo "$out" | grep BROKEN | head -1)"; fi
